@@ -4,7 +4,7 @@
     [Stable D v] (Spec/Spec.v): v is a two-valued model whose true statements are all re-derived by
     the grounded interpretation of the reduct. *)
 From Coq Require Import NArith List Bool.
-From ADF Require Import Spec.Spec Spec.Theory Bdd.Store Bdd.WF Bdd.Node Adf.Native Adf.NativeBase Adf.StableProofs.
+From ADF Require Import Spec.Spec Spec.Theory Bdd.Store Bdd.WF Bdd.Node Adf.Native Adf.NativeBase Adf.StableProofs Adf.Bio Adf.BioProofs Adf.BridgeProofs.
 Import ListNotations.
 Local Open Scope N_scope.
 
@@ -41,3 +41,45 @@ Print Assumptions C03_stable_total.
 Theorem C03_stable_with_prefilter_total : forall c st ac, WF c st -> ac_ok st ac -> exists st' l, stable_with_prefilter c st ac = Some (st', l).
 Proof. exact stable_with_prefilter_total. Qed.
 Print Assumptions C03_stable_with_prefilter_total.
+
+Theorem C03_stable_biodivine : forall c st ac st' l, WF c st -> ac_ok st ac -> bio_stable c st ac = Some (st', l) ->
+  WF c st' /\ extends st st' /\ NoDup (map interp_of l) /\ (forall v, In v (map interp_of l) <-> Stable (abs st ac) v).
+Proof. exact bio_stable_exact. Qed.
+Print Assumptions C03_stable_biodivine.
+
+(** single-formula rewriting: the satisfying valuations of AND_s (ac_s <-> s) are exactly the
+    two-valued models, each once ... *)
+Theorem C03_rewriting_candidates : forall c st ac st' cands, WF c st -> ac_ok st ac -> N.of_nat (length ac) <= VBOT ->
+  stable_candidates c st ac = Some (st', cands) ->
+  WF c st' /\ extends st st' /\ NoDup cands /\
+  Forall (fun v => length v = length ac /\ Forall (fun h => is_tv h = true) v) cands /\
+  (forall v, In v (map interp_of cands) <-> Model2 (abs st ac) v).
+Proof. exact stable_candidates_exact. Qed.
+Print Assumptions C03_rewriting_candidates.
+(** ... and filtering them yields exactly the stable models, on biodivine itself ... *)
+Theorem C03_stable_rewriting_biodivine : forall c st ac st' l, WF c st -> ac_ok st ac -> N.of_nat (length ac) <= VBOT ->
+  bio_stable_rew c st ac = Some (st', l) ->
+  WF c st' /\ extends st st' /\ NoDup l /\ NoDup (map interp_of l) /\ (forall v, In v (map interp_of l) <-> Stable (abs st ac) v).
+Proof. exact bio_stable_rew_exact. Qed.
+Print Assumptions C03_stable_rewriting_biodivine.
+(** ... and on the internal representation of the hybrid mode (candidates from one store, filter on
+    another store denoting the same ADF) *)
+Theorem C03_stable_rewriting_hybrid : forall c1 c2 st1 ac1 st2 ac2 s1' cands s2' l,
+  WF c1 st1 -> WF c2 st2 -> ac_ok st1 ac1 -> ac_ok st2 ac2 -> adf_eq (abs st1 ac1) (abs st2 ac2) ->
+  N.of_nat (length ac1) <= VBOT -> stable_candidates c1 st1 ac1 = Some (s1', cands) ->
+  stable_from_candidates c2 st2 ac2 cands = Some (s2', l) ->
+  NoDup (map interp_of l) /\ (forall v, In v (map interp_of l) <-> Stable (abs st1 ac1) v).
+Proof. exact hybrid_stable_from_candidates. Qed.
+Print Assumptions C03_stable_rewriting_hybrid.
+
+Theorem C03_stable_depends_on_adf_only : forall c1 c2 st1 ac1 st2 ac2 s1' l1 s2' l2,
+  WF c1 st1 -> WF c2 st2 -> ac_ok st1 ac1 -> ac_ok st2 ac2 -> adf_eq (abs st1 ac1) (abs st2 ac2) ->
+  stable c1 st1 ac1 = Some (s1', l1) -> stable c2 st2 ac2 = Some (s2', l2) ->
+  forall v, In v (map interp_of l1) <-> In v (map interp_of l2).
+Proof. exact answers_determined_stable. Qed.
+Print Assumptions C03_stable_depends_on_adf_only.
+Theorem C03_stable_hybrid_pregrounded : forall D g c st ts, Forall (supported (length D)) D -> Grounded D g -> WF c st ->
+  Forall (fun h => h < size st) ts -> adf_eq (abs st ts) (pregrounded D g) ->
+  forall st' l, stable c st ts = Some (st', l) -> NoDup (map interp_of l) /\ (forall v, In v (map interp_of l) <-> Stable D v).
+Proof. exact hybrid_opt_stable. Qed.
+Print Assumptions C03_stable_hybrid_pregrounded.
